@@ -498,7 +498,12 @@ class DDPG(RLAlgorithm):
                     if swap_channels:
                         obs = obs_channels_to_first(obs)
                     action = self.get_action(obs, training=False)
-                    obs, reward, done, trunc, _ = env.step(action)
+                    if hasattr(env, "num_envs"):
+                        obs, reward, done, trunc, _ = env.step(action)
+                    else:
+                        # plain (non-vectorised) environment: un-batch the action, batch the flags
+                        obs, reward, done, trunc, _ = env.step(action[0])
+                        done, trunc = np.atleast_1d(done), np.atleast_1d(trunc)
                     step += 1
                     scores += np.array(reward)
                     for idx, (d, t) in enumerate(zip(done, trunc)):
